@@ -364,6 +364,22 @@ pub fn gen_case(rng: &mut Rng) -> GradCase {
         6 => Transform::translation(-cx, -cy).then(&Transform::new(1., rng.range(-0.7, 0.7) as f32, rng.range(-0.7, 0.7) as f32, 1., 0., 0.)).then_translate(euclid::vec2(cx, cy)),
         _ => Transform::translation(-cx, -cy).then_scale(-1., rng.range(0.7, 1.5) as f32).then_translate(euclid::vec2(cx, cy)),
     };
+    // a ramp that returns to its first colour (A-B-A) lying wholly inside a surface 40..64 px wide: a row starts and
+    // ends on the same colour with the whole ramp between
+    if let SrcSpec::Linear { stops, spread, .. } = &src {
+        if rng.chance(0.08) && stops.len() >= 2 {
+            let w2 = rng.int(40, 64) as i32;
+            let mut st2 = stops.clone();
+            let n = st2.len();
+            st2[n - 1].argb = st2[0].argb;
+            let x0 = rng.range(6., 16.);
+            let x1 = w2 as f64 - rng.range(6., 16.);
+            let (y0, y1) = (rng.range(0., hf), rng.range(0., hf));
+            let (a, b) = if rng.chance(0.5) { ((x0 as f32, y0 as f32), (x1 as f32, y1 as f32)) } else { ((x1 as f32, y0 as f32), (x0 as f32, y1 as f32)) };
+            let src = SrcSpec::Linear { stops: st2, start: a, end: b, spread: if rng.chance(0.7) { 0 } else { *spread } };
+            return GradCase { w: w2, h, src, alpha, t: if rng.chance(0.7) { Transform::identity() } else { Transform::translation(rng.int(-3, 3) as f32, rng.int(-3, 3) as f32) } };
+        }
+    }
     GradCase { w, h, src, alpha, t }
 }
 
@@ -382,8 +398,14 @@ pub fn run_case(ctx: &Ctx, c: &GradCase, st: &mut Stats, want: bool) -> CaseOut 
     // whatever an implementation remembers about a gradient must not depend on the transform it was first
     // drawn under: draw the same source under a different transform (and alpha) first, in this thread
     if co.hash % 3 == 0 {
-        let other = c.t.then_scale(1.5, 0.75).then_translate(euclid::vec2(2.5, -1.0));
-        let _ = probe_source(c.w, c.h, &other, &c.src, 1.0 - c.alpha * 0.5);
+        // (another transform altogether, or one that differs from the case's own by a vertical or a horizontal shift
+        // only - then at the same alpha)
+        let (other, a) = match (co.hash / 3) % 3 {
+            0 => (c.t.then_scale(1.5, 0.75).then_translate(euclid::vec2(2.5, -1.0)), 1.0 - c.alpha * 0.5),
+            1 => (c.t.then_translate(euclid::vec2(0., 3.0)), c.alpha),
+            _ => (c.t.then_translate(euclid::vec2(-2.0, 0.)), c.alpha),
+        };
+        let _ = probe_source(c.w, c.h, &other, &c.src, a);
         st.add("cases_preceded_by_the_same_gradient_under_another_transform", 1);
     }
     // every fourth case is also observed through mask(): a mask of full coverage over the whole surface, SrcOver on
@@ -400,7 +422,17 @@ pub fn run_case(ctx: &Ctx, c: &GradCase, st: &mut Stats, want: bool) -> CaseOut 
             }
         }
     }
-    let pixels = match probe_source_checked(c.w, c.h, &c.t, &c.src, c.alpha) {
+    // one linear or radial gradient in ten is drawn with user space magnified by 2^20 .. 2^34 and its own geometry
+    // shrunk by the same factor (exact in f32, the same picture bit for bit - C11 checks that); the reference keeps
+    // working with the case as written
+    let (real_t, real_src) = if co.hash % 10 == 7 && matches!(&c.src, SrcSpec::Linear { .. } | SrcSpec::Radial { .. }) {
+        let k = (2.0f32).powi([20, 24, 27, 30, 34][(co.hash / 10 % 5) as usize]);
+        st.add("gradients_drawn_under_a_power_of_two_user_scale", 1);
+        (Transform::scale(k, k).then(&c.t), crate::ops::scale_source(&c.src, 1. / k))
+    } else {
+        (c.t, c.src.clone())
+    };
+    let pixels = match probe_source_checked(c.w, c.h, &real_t, &real_src, c.alpha) {
         Ok(p) => p,
         Err(ProbeFail::OutOfRange) => {
             st.add("cases_source_not_observable", 1);
